@@ -336,17 +336,24 @@ impl<F: Fl> Acc for AUnpaired<F> {
         }
     }
     fn append(&mut self, it: &Item) -> Result<(), String> {
-        if it.flag {
-            self.0.append_a(F::from64(it.x.0)).map_err(es)
-        } else {
-            self.0.append_b(F::from64(it.x.0)).map_err(es)
+        // by name, or through the mutable views of the two per-sample states (chosen by a bit of the value)
+        let via_view = it.x.0.to_bits() & 2 != 0;
+        let x = F::from64(it.x.0);
+        match (it.flag, via_view) {
+            (true, false) => self.0.append_a(x).map_err(es),
+            (false, false) => self.0.append_b(x).map_err(es),
+            (true, true) => StatisticsOps::append(self.0.stats_a_mut(), x).map_err(es),
+            (false, true) => StatisticsOps::append(self.0.stats_b_mut(), x).map_err(es),
         }
     }
     fn extend(&mut self, its: &[Item]) -> Result<(), String> {
         let a: Vec<F> = its.iter().filter(|i| i.flag).map(|i| F::from64(i.x.0)).collect();
         let b: Vec<F> = its.iter().filter(|i| !i.flag).map(|i| F::from64(i.x.0)).collect();
-        if its.len() % 2 == 0 {
+        if its.len() % 3 == 0 {
             self.0.extend(&a, &b).map_err(es)
+        } else if its.len() % 3 == 1 {
+            StatisticsOps::extend(self.0.stats_b_mut(), &b).map_err(es)?;
+            StatisticsOps::extend(self.0.stats_a_mut(), &a).map_err(es)
         } else {
             self.0.extend_b(&b).map_err(es)?;
             self.0.extend_a(&a).map_err(es)
